@@ -30,7 +30,7 @@ ModelRoot(ob, ms, h) == LET r == ob[h].root IN Mat(ob[r].m, ob[r].n, ms[r])
 StepHandles(s) ==
   CASE s.op \in {"add", "mul", "addmul"} -> <<s.c, s.a, s.b>>
     [] s.op \in {"concat", "stack"} -> <<s.d, s.a, s.b>>
-    [] s.op \in {"copy", "transpose", "submatrix"} -> <<s.d, s.a>>
+    [] s.op \in {"copy", "transpose", "submatrix", "extract_u", "extract_l", "copy_row"} -> <<s.d, s.a>>
     [] s.op \in {"equal"} -> <<s.a, s.b>>
     [] s.op = "is_zero" -> <<s.a>>
     [] OTHER -> <<s.h>>
@@ -53,6 +53,9 @@ Act(s, ev) ==
     [] s.op = "copy" -> Copy2(s.d, s.a)
     [] s.op = "transpose" -> Transpose2(s.d, s.a)
     [] s.op = "submatrix" -> Submatrix2(s.d, s.a, s.lr, s.lc, s.hr, s.hc)
+    [] s.op = "extract_u" -> ExtractTri2(s.d, s.a, TRUE)
+    [] s.op = "extract_l" -> ExtractTri2(s.d, s.a, FALSE)
+    [] s.op = "copy_row" -> CopyRow2(s.d, s.i, s.a, s.j)
     [] s.op = "concat" -> Concat3(s.d, s.a, s.b)
     [] s.op = "stack" -> Stack3(s.d, s.a, s.b)
     [] s.op = "set_ui" -> SetUi(s.h, s.v)
